@@ -1,1 +1,862 @@
-fn main() {}
+//! cache-sim: request histories with slot-eviction faults against the real
+//! FirstCache / FollowCache of parol (C06).  See /verif/DESIGN.md §5.
+//!
+//! Every answer of the stateful caches is compared with (1) the answer of fresh
+//! caches (history independence) and (2) an independent executable definition of
+//! FIRST_k / FOLLOW_k (least fixpoint over k-truncated concatenation).
+
+mod reference;
+
+use parol::analysis::k_decision::{calculate_k_tuples, decidable, explain_conflicts};
+use parol::analysis::{first_k, follow_k, FirstCache, FirstSet, FollowCache, FollowSet};
+use parol::{obtain_grammar_config_from_string, GrammarConfig, KTuples};
+use reference::{RefGrammar, TSet};
+use serde::{Deserialize, Serialize};
+use serde_json::json;
+use simcore::{Evidence, Fnv, Rng, Tier};
+use std::collections::{BTreeMap, BTreeSet};
+use std::panic::{catch_unwind, AssertUnwindSafe};
+use std::path::{Path, PathBuf};
+
+const ENGINE_ID: u64 = 0xC06;
+const PROPERTY: &str = "C06";
+const MAX_K: usize = 10;
+
+fn harness_error(msg: &str) -> ! {
+    println!("HARNESS-ERROR: {msg}");
+    std::process::exit(simcore::EXIT_HARNESS);
+}
+
+// ---------------------------------------------------------------------------
+// operations
+// ---------------------------------------------------------------------------
+
+#[derive(Clone, Debug, Serialize, Deserialize, PartialEq)]
+enum Op {
+    FirstGet(usize),
+    /// uncached entry point `first_k` (still reads k-1 through the cache)
+    FirstK(usize),
+    FollowGet(usize),
+    FollowK(usize),
+    Decidable(usize, usize),
+    Explain(usize, usize),
+    KTuples(usize),
+    /// fault: slot k of the FIRST cache is reset to "not computed"
+    EvictFirst(usize),
+    /// fault: slot k of the FOLLOW cache is reset to "not computed"
+    EvictFollow(usize),
+}
+
+impl Op {
+    fn is_fault(&self) -> bool {
+        matches!(self, Op::EvictFirst(_) | Op::EvictFollow(_))
+    }
+    fn k(&self) -> usize {
+        match self {
+            Op::FirstGet(k) | Op::FirstK(k) | Op::FollowGet(k) | Op::FollowK(k) | Op::KTuples(k)
+            | Op::EvictFirst(k) | Op::EvictFollow(k) => *k,
+            Op::Decidable(_, k) | Op::Explain(_, k) => *k,
+        }
+    }
+}
+
+fn canon_tuples(kt: &KTuples) -> Vec<Vec<u16>> {
+    let mut v: Vec<Vec<u16>> = kt
+        .sorted()
+        .iter()
+        .map(|t| {
+            if t.is_eps() {
+                vec![]
+            } else {
+                t.terminals().iter().collect()
+            }
+        })
+        .collect();
+    v.sort();
+    v
+}
+
+fn canon_first(f: &FirstSet) -> (Vec<Vec<Vec<u16>>>, Vec<Vec<Vec<u16>>>) {
+    (
+        f.productions.iter().map(canon_tuples).collect(),
+        f.non_terminals.iter().map(canon_tuples).collect(),
+    )
+}
+
+fn canon_follow(f: &FollowSet) -> Vec<Vec<Vec<u16>>> {
+    f.non_terminals.iter().map(canon_tuples).collect()
+}
+
+/// Observable result of one operation in a canonical, comparable form.
+#[derive(Clone, Debug, PartialEq)]
+enum Obs {
+    First(Vec<Vec<Vec<u16>>>, Vec<Vec<Vec<u16>>>),
+    Follow(Vec<Vec<Vec<u16>>>),
+    Decidable(Result<usize, String>),
+    Conflicts(Result<Vec<(usize, Vec<Vec<u16>>, usize, Vec<Vec<u16>>)>, String>),
+    Tuples(Result<BTreeMap<usize, Vec<Vec<u16>>>, String>),
+    Evicted,
+    Populated(bool),
+    Panic(String),
+}
+
+struct Caches {
+    first: FirstCache,
+    follow: FollowCache,
+}
+
+impl Caches {
+    fn new() -> Self {
+        Caches {
+            first: FirstCache::new(),
+            follow: FollowCache::new(),
+        }
+    }
+    fn populated_mask(&self) -> (u16, u16) {
+        let mut a = 0u16;
+        let mut b = 0u16;
+        for k in 0..=MAX_K {
+            if !self.first.0[k].borrow().is_empty() {
+                a |= 1 << k;
+            }
+            if !self.follow.0[k].borrow().is_empty() {
+                b |= 1 << k;
+            }
+        }
+        (a, b)
+    }
+}
+
+fn err_class(e: &anyhow::Error) -> String {
+    // error *texts* may mention k; only the kind is compared
+    let s = e.to_string();
+    s.chars().take(40).collect()
+}
+
+fn apply(op: &Op, gc: &GrammarConfig, nts: &[String], c: &Caches) -> Obs {
+    let r = catch_unwind(AssertUnwindSafe(|| match op {
+        Op::FirstGet(k) => {
+            let f = c.first.get(*k, gc);
+            let f = f.borrow();
+            let (p, n) = canon_first(&f);
+            Obs::First(p, n)
+        }
+        Op::FirstK(k) => {
+            let f = first_k(gc, *k, &c.first);
+            let (p, n) = canon_first(&f);
+            Obs::First(p, n)
+        }
+        Op::FollowGet(k) => {
+            // The entry's fields are crate-private: the request only populates the slot; its
+            // content is observed by the consumers (decidable, explain_conflicts,
+            // calculate_k_tuples) and through the seeding of follow_k(k+1).
+            let f = c.follow.get(*k, gc, &c.first);
+            let empty = f.borrow().is_empty();
+            Obs::Populated(!empty)
+        }
+        Op::FollowK(k) => {
+            let (_, f) = follow_k(gc, *k, &c.first, &c.follow);
+            Obs::Follow(canon_follow(&f))
+        }
+        Op::Decidable(nt, max_k) => Obs::Decidable(
+            decidable(gc, &nts[*nt % nts.len()], *max_k, &c.first, &c.follow).map_err(|e| err_class(&e)),
+        ),
+        Op::Explain(nt, k) => Obs::Conflicts(
+            explain_conflicts(gc, &nts[*nt % nts.len()], *k, &c.first, &c.follow)
+                .map(|v| {
+                    let mut v: Vec<_> = v
+                        .iter()
+                        .map(|(a, ta, b, tb)| (*a, canon_tuples(ta), *b, canon_tuples(tb)))
+                        .collect();
+                    v.sort();
+                    v
+                })
+                .map_err(|e| err_class(&e)),
+        ),
+        Op::KTuples(max_k) => Obs::Tuples(
+            calculate_k_tuples(gc, *max_k, &c.first, &c.follow)
+                .map(|m| m.iter().map(|(k, v)| (*k, canon_tuples(v))).collect())
+                .map_err(|e| err_class(&e)),
+        ),
+        Op::EvictFirst(k) => {
+            *c.first.0[*k].borrow_mut() = Default::default();
+            Obs::Evicted
+        }
+        Op::EvictFollow(k) => {
+            *c.follow.0[*k].borrow_mut() = Default::default();
+            Obs::Evicted
+        }
+    }));
+    match r {
+        Ok(o) => o,
+        Err(p) => Obs::Panic(if let Some(s) = p.downcast_ref::<&str>() {
+            s.to_string()
+        } else if let Some(s) = p.downcast_ref::<String>() {
+            s.clone()
+        } else {
+            "<panic>".into()
+        }),
+    }
+}
+
+// ---------------------------------------------------------------------------
+// grammars
+// ---------------------------------------------------------------------------
+
+#[derive(Clone, Debug, Serialize, Deserialize)]
+struct GrammarSpec {
+    origin: String,
+    text: String,
+    /// run parol's check_and_transform_grammar (canonicalisation, left factoring) first
+    transform: bool,
+}
+
+struct Prepared {
+    gc: GrammarConfig,
+    rg: RefGrammar,
+    nts: Vec<String>,
+    /// reference FIRST/FOLLOW per k (index k), up to kmax
+    ref_first: Vec<Vec<TSet>>,
+    ref_follow: Vec<Vec<TSet>>,
+    kmax: usize,
+}
+
+fn prepare(g: &GrammarSpec, cap: usize, k_limit: usize) -> Option<Prepared> {
+    let r = catch_unwind(AssertUnwindSafe(|| -> Option<Prepared> {
+        let mut gc = obtain_grammar_config_from_string(&g.text, false).ok()?;
+        if gc.grammar_type != parol::parser::parol_grammar::GrammarType::LLK {
+            return None;
+        }
+        if g.transform {
+            let cfg = parol::generators::grammar_trans::check_and_transform_grammar(&gc.cfg, gc.grammar_type).ok()?;
+            gc.update_cfg(cfg);
+        }
+        let rg = RefGrammar::from_config(&gc);
+        if !rg.well_formed() {
+            return None;
+        }
+        // only N and T symbols may occur (first_k has unreachable!() for anything else)
+        if gc.cfg.pr.iter().any(|p| p.get_r().iter().any(|s| !matches!(s, parol::Symbol::N(..) | parol::Symbol::T(parol::Terminal::Trm(..))))) {
+            return None;
+        }
+        let mut ref_first = vec![];
+        let mut ref_follow = vec![];
+        let mut kmax = 0;
+        for k in 0..=k_limit {
+            let Some(f) = rg.first(k, cap) else { break };
+            let Some(fo) = rg.follow(k, &f, cap) else { break };
+            ref_first.push(f);
+            ref_follow.push(fo);
+            kmax = k;
+        }
+        if kmax == 0 {
+            return None;
+        }
+        let nts = rg.nts.clone();
+        Some(Prepared { gc, rg, nts, ref_first, ref_follow, kmax })
+    }));
+    r.ok().flatten()
+}
+
+fn gen_raw_grammar(rng: &mut Rng) -> String {
+    let n_nt = rng.range(1, 6) as usize;
+    let n_t = rng.range(1, 4) as usize;
+    let terms = ["a", "b", "c", "d"];
+    let mut out = String::from("%start N0\n%%\n");
+    for i in 0..n_nt {
+        let n_alts = rng.range(1, 4) as usize;
+        let mut alts: Vec<String> = vec![];
+        for a in 0..n_alts {
+            let len = if rng.chance(1, 6) { 0 } else { rng.range(1, 4) as usize };
+            let mut syms: Vec<String> = vec![];
+            for p in 0..len {
+                // the first alternative of every rule refers to later rules only (productive)
+                let allow_any = a > 0;
+                let r = rng.below(10);
+                if r < 5 {
+                    syms.push(format!("\"{}\"", terms[rng.usize_below(n_t)]));
+                } else if allow_any && (p > 0 || rng.chance(1, 3)) {
+                    syms.push(format!("N{}", rng.usize_below(n_nt)));
+                } else if i + 1 < n_nt {
+                    syms.push(format!("N{}", rng.range(i as u64 + 1, n_nt as u64 - 1)));
+                } else {
+                    syms.push(format!("\"{}\"", terms[rng.usize_below(n_t)]));
+                }
+            }
+            alts.push(syms.join(" "));
+        }
+        // reachability: rule i refers to rule i+1 somewhere
+        if i + 1 < n_nt {
+            let a = rng.usize_below(alts.len());
+            if rng.chance(1, 2) {
+                alts[a] = format!("{} N{}", alts[a], i + 1);
+            } else {
+                alts[a] = format!("N{} {}", i + 1, alts[a]);
+            }
+        }
+        out.push_str(&format!("N{i}: {};\n", alts.join(" | ")));
+    }
+    out
+}
+
+fn load_corpus() -> Vec<(String, String)> {
+    let dir = simcore::verif_root().join("corpus").join("par");
+    let mut v = vec![];
+    if let Ok(rd) = std::fs::read_dir(&dir) {
+        for e in rd.flatten() {
+            let name = e.file_name().to_string_lossy().to_string();
+            if name.ends_with(".par") {
+                if let Ok(t) = std::fs::read_to_string(e.path()) {
+                    if t.len() < 6000 {
+                        v.push((name, t));
+                    }
+                }
+            }
+        }
+    }
+    v.sort();
+    v
+}
+
+// ---------------------------------------------------------------------------
+// runs
+// ---------------------------------------------------------------------------
+
+#[derive(Clone, Debug, Serialize, Deserialize)]
+struct RunSpec {
+    grammar: GrammarSpec,
+    ops: Vec<Op>,
+}
+
+fn gen_ops(rng: &mut Rng, p: &Prepared, with_faults: bool) -> Vec<Op> {
+    let n = rng.range(6, 40) as usize;
+    let kmax = p.kmax;
+    let mut ops = vec![];
+    // swarm: request-order style of this run
+    let style = rng.below(4); // 0 random, 1 descending first, 2 ascending, 3 hammer one k
+    let hammer = rng.usize_below(kmax + 1);
+    for i in 0..n {
+        let k = match style {
+            1 if i < kmax + 1 => kmax - i.min(kmax),
+            2 => (i % (kmax + 1)).min(kmax),
+            3 if rng.chance(2, 3) => hammer,
+            _ => rng.usize_below(kmax + 1),
+        };
+        let nt = rng.usize_below(p.nts.len());
+        let w: [u64; 9] = if with_faults { [5, 3, 4, 4, 3, 2, 2, 3, 3] } else { [5, 3, 4, 4, 3, 2, 2, 0, 0] };
+        let op = match rng.weighted(&w) {
+            0 => Op::FirstGet(k),
+            1 => Op::FirstK(k),
+            2 => Op::FollowGet(k),
+            3 => Op::FollowK(k),
+            4 => Op::Decidable(nt, k.max(1)),
+            5 => Op::Explain(nt, k.max(1)),
+            6 => Op::KTuples(k.max(1)),
+            7 => Op::EvictFirst(rng.usize_below(kmax + 1)),
+            _ => Op::EvictFollow(rng.usize_below(kmax + 1)),
+        };
+        ops.push(op);
+    }
+    ops
+}
+
+#[derive(Clone, Debug)]
+struct Finding {
+    class: String,
+    step: usize,
+    detail: String,
+}
+
+fn set_of(v: &[Vec<u16>]) -> TSet {
+    v.iter().cloned().collect()
+}
+
+fn ref_decidable(p: &Prepared, nt: usize, max_k: usize) -> Option<Result<usize, ()>> {
+    let prods: Vec<usize> = p.rg.prods.iter().enumerate().filter(|(_, (l, _))| *l == nt).map(|(i, _)| i).collect();
+    if prods.len() == 1 {
+        return Some(Ok(0));
+    }
+    for k in 1..=max_k {
+        if k > p.kmax {
+            return None; // beyond what the reference computed
+        }
+        let fp = p.rg.first_of_productions(k, &p.ref_first[k]);
+        let sets: Vec<TSet> = prods.iter().map(|pi| reference::concat_k(&fp[*pi], &p.ref_follow[k][nt], k)).collect();
+        let mut disjoint = true;
+        for i in 0..sets.len() {
+            for j in 0..sets.len() {
+                if i != j && sets[i].intersection(&sets[j]).next().is_some() {
+                    disjoint = false;
+                }
+            }
+        }
+        if disjoint {
+            return Some(Ok(k));
+        }
+    }
+    Some(Err(()))
+}
+
+struct RunStats {
+    answers: u64,
+    definition_checks: u64,
+    states: BTreeSet<(u16, u16, usize)>,
+    evictions: u64,
+    evictions_of_populated: u64,
+    descending_first: u64,
+    panics: u64,
+}
+
+/// Executes the history; returns the first violation, if any.
+fn execute(p: &Prepared, ops: &[Op], stats: Option<&mut RunStats>) -> Option<Finding> {
+    let stateful = Caches::new();
+    let mut local = RunStats { answers: 0, definition_checks: 0, states: BTreeSet::new(), evictions: 0, evictions_of_populated: 0, descending_first: 0, panics: 0 };
+    let mut finding = None;
+    let mut first_request_k: Option<usize> = None;
+    for (step, op) in ops.iter().enumerate() {
+        let (ma, mb) = stateful.populated_mask();
+        if op.is_fault() {
+            local.evictions += 1;
+            let pop = match op {
+                Op::EvictFirst(k) => ma & (1 << k) != 0,
+                Op::EvictFollow(k) => mb & (1 << k) != 0,
+                _ => false,
+            };
+            if pop {
+                local.evictions_of_populated += 1;
+            }
+            apply(op, &p.gc, &p.nts, &stateful);
+            continue;
+        }
+        if (ma | mb) != 0 {
+            local.states.insert((ma, mb, op.k()));
+        }
+        if first_request_k.is_none() {
+            first_request_k = Some(op.k());
+            if op.k() >= 2 {
+                local.descending_first += 1;
+            }
+        }
+        let got = apply(op, &p.gc, &p.nts, &stateful);
+        local.answers += 1;
+        // oracle 1: history independence - the same call on fresh caches
+        let fresh = Caches::new();
+        let want = apply(op, &p.gc, &p.nts, &fresh);
+        if let Obs::Panic(m) = &got {
+            local.panics += 1;
+            if !matches!(want, Obs::Panic(_)) {
+                finding = Some(Finding { class: "history-dependence".into(), step, detail: format!("{op:?} panicked on the used caches ({m}) but not on fresh ones") });
+                break;
+            }
+        }
+        if got != want {
+            finding = Some(Finding {
+                class: "history-dependence".into(),
+                step,
+                detail: format!("{op:?} after {} earlier operations answers differently from the same call on fresh caches (populated FIRST slots {ma:#b}, FOLLOW slots {mb:#b})", step),
+            });
+            break;
+        }
+        // oracle 2: the definition (k >= 1)
+        let k = op.k();
+        if k >= 1 && k <= p.kmax {
+            match (&got, op) {
+                (Obs::First(prods, nts), Op::FirstGet(_) | Op::FirstK(_)) => {
+                    local.definition_checks += 1;
+                    let rf = &p.ref_first[k];
+                    let rp = p.rg.first_of_productions(k, rf);
+                    for (i, s) in nts.iter().enumerate() {
+                        if set_of(s) != rf[i] {
+                            finding = Some(Finding { class: "first-differs-from-definition".into(), step, detail: format!("FIRST_{k}({}) = {:?}, definition gives {:?}", p.nts[i], s, rf[i]) });
+                        }
+                    }
+                    for (i, s) in prods.iter().enumerate() {
+                        if finding.is_none() && set_of(s) != rp[i] {
+                            finding = Some(Finding { class: "first-differs-from-definition".into(), step, detail: format!("FIRST_{k}(production {i}) = {:?}, definition gives {:?}", s, rp[i]) });
+                        }
+                    }
+                }
+                (Obs::Follow(nts), Op::FollowK(_)) => {
+                    local.definition_checks += 1;
+                    let rf = &p.ref_follow[k];
+                    for (i, s) in nts.iter().enumerate() {
+                        if set_of(s) != rf[i] {
+                            finding = Some(Finding { class: "follow-differs-from-definition".into(), step, detail: format!("FOLLOW_{k}({}) = {:?}, definition gives {:?}", p.nts[i], s, rf[i]) });
+                            break;
+                        }
+                    }
+                }
+                (Obs::Decidable(r), Op::Decidable(nt, max_k)) => {
+                    if let Some(want) = ref_decidable(p, *nt % p.nts.len(), *max_k) {
+                        local.definition_checks += 1;
+                        let same = match (r, &want) {
+                            (Ok(a), Ok(b)) => a == b,
+                            (Err(_), Err(())) => true,
+                            _ => false,
+                        };
+                        if !same {
+                            finding = Some(Finding { class: "decision-differs-from-definition".into(), step, detail: format!("decidable({}, {max_k}) = {:?}, definition gives {:?}", p.nts[*nt % p.nts.len()], r, want) });
+                        }
+                    }
+                }
+                (Obs::Tuples(Ok(m)), Op::KTuples(max_k)) => {
+                    // FIRST_k(production) . FOLLOW_k(lhs) at the minimal deciding k of the lhs
+                    let mut ok = true;
+                    let mut checked = false;
+                    for (pi, got_set) in m {
+                        let nt = p.rg.prods[*pi].0;
+                        if let Some(Ok(kd)) = ref_decidable(p, nt, *max_k) {
+                            if kd <= p.kmax {
+                                checked = true;
+                                let fp = p.rg.first_of_productions(kd, &p.ref_first[kd]);
+                                let want = if kd == 0 {
+                                    // k = 0: representation convention of the end marker (DESIGN §5.3): skip
+                                    continue;
+                                } else {
+                                    reference::concat_k(&fp[*pi], &p.ref_follow[kd][nt], kd)
+                                };
+                                if set_of(got_set) != want {
+                                    ok = false;
+                                    finding = Some(Finding { class: "k-tuples-differ-from-definition".into(), step, detail: format!("lookahead tuples of production {pi} (k={kd}) = {:?}, definition gives {:?}", got_set, want) });
+                                    break;
+                                }
+                            }
+                        }
+                    }
+                    if checked && ok {
+                        local.definition_checks += 1;
+                    }
+                }
+                _ => {}
+            }
+        }
+        if finding.is_some() {
+            break;
+        }
+    }
+    if let Some(s) = stats {
+        s.answers += local.answers;
+        s.definition_checks += local.definition_checks;
+        s.states.extend(local.states);
+        s.evictions += local.evictions;
+        s.evictions_of_populated += local.evictions_of_populated;
+        s.descending_first += local.descending_first;
+        s.panics += local.panics;
+    }
+    finding
+}
+
+fn run_spec(spec: &RunSpec, cap: usize, k_limit: usize, stats: Option<&mut RunStats>) -> Result<Option<Finding>, String> {
+    let Some(p) = prepare(&spec.grammar, cap, k_limit) else {
+        return Err("grammar not usable (rejected by parol, not LL, or not well-formed)".into());
+    };
+    let ops: Vec<Op> = spec.ops.iter().filter(|o| o.k() <= p.kmax).cloned().collect();
+    Ok(execute(&p, &ops, stats))
+}
+
+// ---------------------------------------------------------------------------
+// batch
+// ---------------------------------------------------------------------------
+
+struct Budget {
+    runs: usize,
+    cap: usize,
+    k_limit: usize,
+}
+
+fn budget_for(tier: Tier) -> Budget {
+    let scale: f64 = std::env::var("VERIF_SCALE").ok().and_then(|s| s.parse().ok()).unwrap_or(1.0);
+    match tier {
+        Tier::Quick => Budget { runs: (8000.0 * scale) as usize, cap: 8_000, k_limit: 8 },
+        Tier::Thorough => Budget { runs: (150_000.0 * scale) as usize, cap: 40_000, k_limit: 10 },
+    }
+}
+
+fn gen_run(seed: u64, i: usize, corpus: &[(String, String)]) -> (GrammarSpec, u64) {
+    let mut rng = Rng::for_run(seed, ENGINE_ID, i as u64);
+    let g = if rng.chance(1, 4) && !corpus.is_empty() {
+        let (name, text) = rng.pick(corpus).clone();
+        GrammarSpec { origin: format!("corpus:{name}"), text, transform: true }
+    } else {
+        let text = gen_raw_grammar(&mut rng);
+        GrammarSpec { origin: format!("gen:{i}"), text, transform: rng.chance(1, 3) }
+    };
+    (g, rng.next_u64())
+}
+
+fn minimise(spec: &RunSpec, f: &Finding, cap: usize, k_limit: usize) -> (RunSpec, Finding) {
+    let class = f.class.clone();
+    let mut best = (spec.clone(), f.clone());
+    // 1. operations
+    let ops = simcore::ddmin(&spec.ops, |cand| {
+        let s = RunSpec { grammar: spec.grammar.clone(), ops: cand.to_vec() };
+        match run_spec(&s, cap, k_limit, None) {
+            Ok(Some(ff)) if ff.class == class => {
+                best = (s, ff);
+                true
+            }
+            _ => false,
+        }
+    });
+    let _ = ops;
+    // 2. grammar lines (productions), line based
+    let lines: Vec<String> = best.0.grammar.text.lines().map(|l| l.to_string()).collect();
+    let ops2 = best.0.ops.clone();
+    let origin = best.0.grammar.origin.clone();
+    let transform = best.0.grammar.transform;
+    let mut budget = 300;
+    let small = simcore::ddmin(&lines, |cand| {
+        if budget == 0 {
+            return false;
+        }
+        budget -= 1;
+        let s = RunSpec { grammar: GrammarSpec { origin: origin.clone(), text: cand.join("\n") + "\n", transform }, ops: ops2.clone() };
+        matches!(run_spec(&s, cap, k_limit, None), Ok(Some(ff)) if ff.class == class)
+    });
+    let s = RunSpec { grammar: GrammarSpec { origin, text: small.join("\n") + "\n", transform }, ops: ops2 };
+    if let Ok(Some(ff)) = run_spec(&s, cap, k_limit, None) {
+        if ff.class == class {
+            best = (s, ff);
+        }
+    }
+    best
+}
+
+fn finding_key(spec: &RunSpec, f: &Finding) -> String {
+    format!("{}|{}", f.class, simcore::fnv_hex(spec.grammar.text.as_bytes()))
+}
+
+fn run_batch(tier: Tier, emit_log: Option<&Path>) -> i32 {
+    let t0 = std::time::Instant::now();
+    let seed = simcore::env_seed();
+    let workers = simcore::env_workers();
+    let b = budget_for(tier);
+    let corpus = load_corpus();
+    println!("cache-sim: property={PROPERTY} tier={} seed={seed} runs={} workers={workers}", tier.as_str(), b.runs);
+
+    struct Res {
+        usable: bool,
+        spec: Option<RunSpec>,
+        finding: Option<Finding>,
+        stats: RunStats,
+        log: String,
+        kmax: usize,
+    }
+    let results: Vec<Res> = simcore::par_map(b.runs, workers, 64 << 20, |i| {
+        let (g, opseed) = gen_run(seed, i, &corpus);
+        let mut stats = RunStats { answers: 0, definition_checks: 0, states: BTreeSet::new(), evictions: 0, evictions_of_populated: 0, descending_first: 0, panics: 0 };
+        let Some(p) = prepare(&g, b.cap, b.k_limit) else {
+            return Res { usable: false, spec: None, finding: None, stats, log: format!("{i} {} unusable", g.origin), kmax: 0 };
+        };
+        let mut rng = Rng::new(opseed);
+        let with_faults = rng.chance(2, 3);
+        let ops = gen_ops(&mut rng, &p, with_faults);
+        let finding = execute(&p, &ops, Some(&mut stats));
+        let log = format!(
+            "{i} {} {} t={} kmax={} ops={} answers={} defchecks={} finding={:?}",
+            g.origin, simcore::fnv_hex(g.text.as_bytes()), g.transform, p.kmax, ops.len(), stats.answers, stats.definition_checks,
+            finding.as_ref().map(|f| (&f.class, f.step))
+        );
+        Res { usable: true, kmax: p.kmax, spec: Some(RunSpec { grammar: g, ops }), finding, stats, log }
+    });
+
+    let mut log = Fnv::new();
+    let mut lines = vec![];
+    for r in &results {
+        log.write_str(&r.log);
+        lines.push(r.log.clone());
+    }
+    if let Some(p) = emit_log {
+        let _ = std::fs::write(p, lines.join("\n") + "\n");
+    }
+    let dry = emit_log.is_some();
+
+    let mut answers = 0u64;
+    let mut defchecks = 0u64;
+    let mut states: BTreeSet<(u16, u16, usize)> = BTreeSet::new();
+    let mut evictions = 0u64;
+    let mut evict_pop = 0u64;
+    let mut desc = 0u64;
+    let mut usable = 0u64;
+    let mut panics = 0u64;
+    let mut kmax_hist: BTreeMap<usize, u64> = BTreeMap::new();
+    let mut grammars: BTreeSet<String> = BTreeSet::new();
+    for r in &results {
+        if r.usable {
+            usable += 1;
+            *kmax_hist.entry(r.kmax).or_default() += 1;
+            if let Some(s) = &r.spec {
+                grammars.insert(simcore::fnv_hex(s.grammar.text.as_bytes()));
+            }
+        }
+        answers += r.stats.answers;
+        defchecks += r.stats.definition_checks;
+        states.extend(r.stats.states.iter().cloned());
+        evictions += r.stats.evictions;
+        evict_pop += r.stats.evictions_of_populated;
+        desc += r.stats.descending_first;
+        panics += r.stats.panics;
+    }
+
+    let known = simcore::load_known_findings(PROPERTY);
+    let mut violations = 0u64;
+    let mut known_seen: BTreeMap<String, u64> = BTreeMap::new();
+    let mut reported: BTreeSet<String> = BTreeSet::new();
+    let mut n_replay = 0;
+    for r in &results {
+        let (Some(spec), Some(f)) = (&r.spec, &r.finding) else { continue };
+        let key = finding_key(spec, f);
+        if let Some(k) = known.iter().find(|k| k.status == "open" && k.class == f.class && (k.key == key || k.key == spec.grammar.origin)) {
+            *known_seen.entry(format!("{} {} :: {}", k.class, k.key, k.what)).or_default() += 1;
+            continue;
+        }
+        violations += 1;
+        if dry || reported.contains(&f.class) || n_replay >= 4 {
+            continue;
+        }
+        reported.insert(f.class.clone());
+        let (ms, mf) = minimise(spec, f, b.cap, b.k_limit);
+        let body = json!({
+            "engine": "cache-sim", "property": PROPERTY, "seed": seed.to_string(),
+            "signature": {"class": mf.class, "step": mf.step}, "detail": mf.detail,
+            "spec": ms, "cap": b.cap, "k_limit": b.k_limit,
+        });
+        let path = simcore::write_replay(PROPERTY, seed, n_replay, &body).unwrap_or_else(|e| harness_error(&format!("replay: {e}")));
+        n_replay += 1;
+        println!("violation: {} at step {} of {} ({} ops after minimisation): {}", f.class, f.step, spec.grammar.origin, ms.ops.len(), mf.detail.chars().take(400).collect::<String>());
+        println!("VIOLATION property={PROPERTY} replay={}", path.display());
+    }
+    for (k, n) in &known_seen {
+        println!("KNOWN-FINDING: property={PROPERTY} {k} (seen {n}x)");
+    }
+
+    let wall = t0.elapsed().as_secs_f64();
+    let mut ev = Evidence::new(PROPERTY, tier, seed);
+    ev.evaluations = answers;
+    ev.distinct_nontrivial = states.len() as u64;
+    ev.rule = "one evaluation = one answer of the real FirstCache/FollowCache API (get, first_k, follow_k, decidable, explain_conflicts, calculate_k_tuples) inside a seeded request history with slot evictions, compared with the same call on fresh caches and - for k >= 1 within the reference bound - with the executable definition (least fixpoint over k-truncated concatenation). distinct_nontrivial = distinct (populated FIRST-slot bitmask, populated FOLLOW-slot bitmask, requested k) states with at least one populated slot at the time of a request.".into();
+    ev.samples = results.iter().filter_map(|r| r.spec.as_ref()).take(2).map(|s| json!({"origin": s.grammar.origin, "transform": s.grammar.transform, "grammar": s.grammar.text, "ops": s.ops})).collect();
+    ev.violations = violations;
+    ev.wall_s = wall;
+    ev.set("runs", json!(results.len()));
+    ev.set("usable_runs", json!(usable));
+    ev.set("distinct_grammars", json!(grammars.len()));
+    ev.set("runs_per_hour", json!((results.len() as f64 / wall.max(0.001) * 3600.0) as u64));
+    ev.set("definition_checks", json!(defchecks));
+    ev.set("kmax_histogram", json!(kmax_hist));
+    ev.set("faults_fired", json!({"slot_eviction": evictions, "slot_eviction_of_populated_slot": evict_pop}));
+    ev.set("probes", json!({"first_request_k_ge_2(descending start)": desc, "panics_same_on_fresh_caches": panics}));
+    ev.set("event_log_hash", json!(log.hex()));
+    ev.set("sim_time_ms", json!(0));
+    ev.set("known_findings_seen", json!(known_seen));
+    ev.set("real_components", json!(["parol::analysis first_k, follow_k, FirstCache, FollowCache, decidable, explain_conflicts, calculate_k_tuples, KTuples/KTuple (path dependency on /repo)", "parol grammar parser and check_and_transform_grammar for preparing the grammars"]));
+    ev.set("stubbed_components", json!(["none (reference model: /verif/cache-sim/src/reference.rs)"]));
+    ev.assumptions = vec![
+        "terminal / non-terminal numbering is taken from parol (C18's subject)".into(),
+        "k = 0 is checked for history independence only (representation convention of the end marker, DESIGN §5.3)".into(),
+        "the reference model is bounded by a cap on the total number of tuples; requests never exceed the k it reached".into(),
+    ];
+    if !dry {
+        if let Err(e) = ev.write() {
+            harness_error(&format!("cannot write evidence: {e}"));
+        }
+    }
+    println!(
+        "cache-sim: {} runs ({} usable, {} grammars) in {:.1}s, {} answers, {} definition checks, {} cache states, {} evictions, violations {}, log={}",
+        results.len(), usable, grammars.len(), wall, answers, defchecks, states.len(), evictions, violations, log.hex()
+    );
+    if violations > 0 {
+        simcore::EXIT_VIOLATION
+    } else {
+        println!("OK property={PROPERTY} held on everything explored");
+        simcore::EXIT_OK
+    }
+}
+
+fn replay(path: &Path) -> i32 {
+    let v = simcore::read_json(path).unwrap_or_else(|e| harness_error(&e));
+    let spec: RunSpec = serde_json::from_value(v["spec"].clone()).unwrap_or_else(|e| harness_error(&format!("replay spec: {e}")));
+    let cap = v["cap"].as_u64().unwrap_or(6000) as usize;
+    let k_limit = v["k_limit"].as_u64().unwrap_or(6) as usize;
+    match run_spec(&spec, cap, k_limit, None) {
+        Err(e) => {
+            println!("replay: {e} - not reproduced");
+            simcore::EXIT_OK
+        }
+        Ok(None) => {
+            println!("replay: not reproduced - every answer matches fresh caches and the definition");
+            simcore::EXIT_OK
+        }
+        Ok(Some(f)) => {
+            let same = v["signature"]["class"].as_str() == Some(&f.class) && v["signature"]["step"].as_u64() == Some(f.step as u64);
+            println!("replay: reproduced {} at step {} ({}): {}", f.class, f.step, if same { "same signature" } else { "signature differs from the recorded one" }, f.detail.chars().take(300).collect::<String>());
+            println!("VIOLATION property={PROPERTY} replay={}", path.display());
+            simcore::EXIT_VIOLATION
+        }
+    }
+}
+
+fn run_selfcheck() -> i32 {
+    let exe = std::env::current_exe().unwrap();
+    let dir = simcore::verif_root().join("scratch").join("cache-selfcheck").join(std::process::id().to_string());
+    let _ = std::fs::create_dir_all(&dir);
+    let mut logs = vec![];
+    for (n, workers) in [(0, "16"), (1, "3")] {
+        let log = dir.join(format!("log-{n}.txt"));
+        let st = std::process::Command::new(&exe)
+            .args(["--tier", "quick", "--emit-log"])
+            .arg(&log)
+            .env("VERIF_WORKERS", workers)
+            .stdout(std::process::Stdio::null())
+            .status();
+        match st {
+            Ok(s) if matches!(s.code(), Some(0) | Some(1)) => {}
+            other => harness_error(&format!("selfcheck child failed: {other:?}")),
+        }
+        logs.push(std::fs::read_to_string(&log).unwrap_or_default());
+    }
+    let _ = std::fs::remove_dir_all(&dir);
+    if logs[0].is_empty() || logs[0] != logs[1] {
+        println!("HARNESS-ERROR: determinism self-check failed: event logs differ between two processes");
+        return simcore::EXIT_HARNESS;
+    }
+    println!("selfcheck: {} run logs identical across two processes (16 vs 3 workers)", logs[0].lines().count());
+    simcore::EXIT_OK
+}
+
+fn main() {
+    let args: Vec<String> = std::env::args().collect();
+    let mut tier = simcore::env_tier();
+    let mut replay_file: Option<PathBuf> = None;
+    let mut emit_log: Option<PathBuf> = None;
+    let mut selfcheck = false;
+    let mut i = 1;
+    while i < args.len() {
+        match args[i].as_str() {
+            "--tier" => {
+                i += 1;
+                tier = if args.get(i).map(|s| s.as_str()) == Some("thorough") { Tier::Thorough } else { Tier::Quick };
+            }
+            "--replay" => {
+                i += 1;
+                replay_file = args.get(i).map(PathBuf::from);
+            }
+            "--emit-log" => {
+                i += 1;
+                emit_log = args.get(i).map(PathBuf::from);
+            }
+            "--selfcheck" => selfcheck = true,
+            other => harness_error(&format!("unknown argument {other}")),
+        }
+        i += 1;
+    }
+    std::panic::set_hook(Box::new(|_| {}));
+    let code = if let Some(p) = replay_file {
+        replay(&p)
+    } else if selfcheck {
+        run_selfcheck()
+    } else {
+        run_batch(tier, emit_log.as_deref())
+    };
+    std::process::exit(code);
+}
